@@ -3,7 +3,7 @@
     [val].  Inputs are exact rationals (the harness converts the floats the
     implementation saw with float.as_integer_ratio); outputs are rationals
     rounded down to multiples of 2^-90 and returned as the integer numerator. *)
-From Coq Require Import ZArith List Bool QArith Qcanon Qround.
+From Coq Require Import ZArith List Bool QArith Qcanon Qround Qabs.
 From CG3 Require Import Lib.Val Lib.FieldAlg Lib.Mat Model.RateMatrix.
 Import ListNotations.
 
@@ -23,7 +23,12 @@ Inductive case : Type :=
         (t : rat) (s terms : nat)
 | CasePade (n q : nat) (A : list (list rat))
 | CaseTaylor (n terms : nat) (A : list (list rat))
-| CaseRates (kind : Z) (w v : list rat).
+| CaseRates (kind : Z) (w v : list rat)
+| CaseRatios (ratios : list rat)
+| CasePick (stationary : bool) (n : nat) (pick : list (list nat)) (lic : list (nat * nat)) (params probs : list rat).
+
+(** numpy.allclose(x, 0.0): |x| <= 1e-8 *)
+Definition near0_1e8 (x : Qc) : bool := Qle_bool (Qabs (this x)) (1 # 100000000).
 
 Definition run_case (c : case) : val :=
   match c with
@@ -57,4 +62,16 @@ Definition run_case (c : case) : val :=
       vvec (if Z.eqb kind 0 then weighted_partition F w' v'
             else if Z.eqb kind 1 then monotonic F w' v'
             else gamma_rates F w' v')
+  | CaseRatios ratios => vvec (psub_row F (map q_of ratios))
+  | CasePick stationary n pick lic params probs =>
+      let pr := map q_of probs in
+      let ps := map q_of params in
+      if stationary then
+        match gs_exchangeability F Qc_neg near0_1e8 n pr ps pick lic with
+        | None => VE 9
+        | Some Rl => VL [vmat Rl; vmat (calcQ_stationary F n pr (mpm_simple F n pr) Rl)]
+        end
+      else
+        let Rl := take_pick F n ps pick in
+        VL [vmat Rl; vmat (calcQ_general F n pr Rl)]
   end.
